@@ -44,7 +44,8 @@ C == [ranks |-> T.cfg.ranks, lm |-> T.cfg.lm,
       pre   |-> [i \in 1 .. Len(T.cfg.pre)  |-> ToEntry(T.cfg.pre[i])],
       post  |-> [i \in 1 .. Len(T.cfg.post) |-> ToEntry(T.cfg.post[i])],
       prel  |-> T.cfg.prel, postl |-> T.cfg.postl, sync |-> T.cfg.sync,
-      argv  |-> T.cfg.argv, env |-> T.cfg.env, omp |-> T.cfg.omp,
+      argv  |-> T.cfg.argv, env |-> T.cfg.env, envk |-> T.cfg.envk, nenv |-> T.cfg.nenv,
+      omp   |-> T.cfg.omp,
       gpr   |-> T.cfg.gpr, out |-> T.cfg.out, err |-> T.cfg.err]
 FF  == {Exe(f.sig, f.i, f.r) : f \in SeqSet(T.F)}
 X   == LaunchRun(C, FF, T.xrc)                  \* the spec's observable for this run
@@ -89,8 +90,14 @@ ArgErrs(a) ==
   \cup UNION {E(a.seen[i] = a.want[i], Sev(a.cls[i]) \o "ArgValue." \o a.cls[i])
               : i \in 1 .. (IF Len(a.seen) < Len(a.want) THEN Len(a.seen) ELSE Len(a.want))}
 
+\* SeenEnv(C)[i] = "described": the executable sees the described value, also for
+\* keys the named environment defines or its activation unsets
 EnvErrs(es) ==
-  UNION {E(es[i].seen = es[i].want, Sev(es[i].cls) \o "EnvValue." \o es[i].cls) : i \in 1 .. Len(es)}
+  UNION {E(es[i].seen = es[i].want,
+           IF C.nenv /\ i <= Len(C.envk) /\ C.envk[i] # "fresh" /\ es[i].cls \in Alarmed
+              /\ SeenEnv(C)[i] = "described"
+           THEN "C10.EnvDescribedWins." \o C.envk[i]
+           ELSE Sev(es[i].cls) \o "EnvValue." \o es[i].cls) : i \in 1 .. Len(es)}
 
 ItemErrs(its) ==
   UNION {E(its[i].seen = its[i].want, "C10." \o its[i].clause \o "." \o its[i].k) : i \in 1 .. Len(its)}
